@@ -20,6 +20,31 @@ func TestC02(t *testing.T) {
 	Ev.Assume("overlay writer reads the old file through a file-like reader (short only at EOF): no short reads injected on the old build")
 	Prop(t, "C02", func(rt *rapid.T) {
 		pair := GenPair(rt, GenOpts{Links: true, EmptyDirs: true, KindChange: true, DirFile: true, LowEntropy: true, MaxMid: 200 * KiB, Big: rapid.IntRange(0, 19).Draw(rt, "allowbig") == 0})
+		retry := rapid.IntRange(0, 3).Draw(rt, "retry") == 0
+		if retry && rapid.Bool().Draw(rt, "periodic") {
+			// a file laid out from two or three distinct blocks, some of them replaced by another of
+			// the same blocks in the new build: old and new agree at many shifted offsets
+			nb := rapid.IntRange(4, 10).Draw(rt, "periodicblocks")
+			var od, nd []byte
+			for i := 0; i < nb; i++ {
+				a := rapid.IntRange(0, 2).Draw(rt, "periodicold")
+				b := a
+				if rapid.IntRange(0, 2).Draw(rt, "periodicchange") == 0 {
+					b = rapid.IntRange(0, 2).Draw(rt, "periodicnew")
+				}
+				od = append(od, poolBlock(pair.PoolSeed, a)...)
+				nd = append(nd, poolBlock(pair.PoolSeed, b)...)
+			}
+			pth := rapid.SampledFrom([]string{"0periodic.bin", "a/periodic.bin", "zz/periodic.bin"}).Draw(rt, "periodicpath")
+			if canPlace(pair.Old, pth) && canPlace(pair.New, pth) {
+				pair.Old[pth] = &Entry{Kind: KFile, Data: od}
+				pair.New[pth] = &Entry{Kind: KFile, Data: nd}
+				pair.Meta[pth] = FileMeta{From: pth, Op: "blocks replaced by other blocks of the same file"}
+				pair.Old.Normalize()
+				pair.New.Normalize()
+				Ev.Probe("file_of_repeated_blocks_patched_in_place")
+			}
+		}
 		dir, cleanup := RunDir()
 		defer cleanup()
 		oldDir, newDir := filepath.Join(dir, "old"), filepath.Join(dir, "new")
@@ -40,8 +65,15 @@ func TestC02(t *testing.T) {
 		reads := 0
 		s := &Sched{Spec: spec, MaxSteps: 100000}
 		var ar *ApplyResult
+		firstCut := 0
+		if retry && len(patch) > 40 {
+			// a first attempt dies on a patch that ends early (download cut short); the application is
+			// then run again from the start with the same bowl
+			firstCut = rapid.IntRange(20, len(patch)-1).Draw(rt, "firstcut")
+		}
 		s.Run(t, func() {
 			ar = ApplyInPlace(patch, inDir, stage, ApplyOpts{
+				FirstAttemptCut: firstCut,
 				OnPool: func(p *Pool) {
 					p.OnRead = func(ev ReadEvent) {
 						reads++
@@ -70,6 +102,12 @@ func TestC02(t *testing.T) {
 			Violation(rt, "C02/old-build-touched-before-commit", "%s (patch %s)\nops %v", inv, desc, pair.Ops)
 			return
 		}
+		if ar.Stage == "first-attempt-accepted-truncated-patch" {
+			// the cut only removed bytes the patcher never reads (compressor trailer): there was no failed
+			// attempt to retry after
+			Ev.Probe("truncated_patch_applied_without_error(cut_in_trailer)")
+			return
+		}
 		if ar.Invariant != "" {
 			Violation(rt, "C02/old-build-touched-before-commit", "right before Commit: %s (patch %s)\nops %v", ar.Invariant, desc, pair.Ops)
 			return
@@ -79,9 +117,13 @@ func TestC02(t *testing.T) {
 			class := "C02/apply-error"
 			if ar.Stage == "commit" {
 				for c, paths := range shapes {
-					if mentionsAny(ar.Err.Error(), paths) {
-						class = c
+					if !mentionsAny(ar.Err.Error(), paths) {
+						continue
 					}
+					if c == "C02/dir-to-file-commit" && !dirToFileKnownFailure(ar.Err.Error(), pair, paths) {
+						continue
+					}
+					class = c
 				}
 			}
 			Violation(rt, class, "in-place apply failed at %s: %+v (patch %s, maporder %d, broken rename %v)\nops %v", ar.Stage, trimErr(ar.Err), desc, spec.MapOrder, broken, pair.Ops)
@@ -104,6 +146,10 @@ func TestC02(t *testing.T) {
 			}
 		}
 		Ev.ProbeIf(broken, "rename_failure_injected_runs")
+		Ev.ProbeIf(ar.FirstRan, "retried_on_the_same_bowl_after_a_failed_first_attempt")
+		if ar.FirstRan {
+			Ev.Fault("patch_truncated_first_attempt", 1)
+		}
 		Ev.ProbeIf(pair.KindChange, "symlink_kind_change")
 		Ev.ProbeIf(dirfile, "dirfile_kind_change_passed")
 		rel := false
@@ -157,6 +203,48 @@ func onlyMentions(a, b Tree, paths []string) bool {
 	}
 	for q := range b {
 		if _, ok := a[q]; !ok && !in(q) {
+			return false
+		}
+	}
+	return true
+}
+
+// dirToFileKnownFailure narrows the known finding C02/dir-to-file-commit to the two ways the
+// unchanged code fails: ENOTEMPTY while the old directory still holds entries, or EISDIR when the
+// path is the destination of a copied transposition (its new content is some old file's content).
+// A directory that is empty when its replacement is moved in from the stage folder is handled
+// correctly by the unchanged code; a failure there is a new violation.
+func dirToFileKnownFailure(errText string, pair *Pair, paths []string) bool {
+	if strings.Contains(errText, "directory not empty") {
+		return true
+	}
+	if !strings.Contains(errText, "is a directory") {
+		return false
+	}
+	for _, p := range paths {
+		if !mentionsAny(errText, []string{p}) {
+			continue
+		}
+		ne := pair.New[p]
+		if ne == nil || ne.Kind != KFile || len(ne.Data) == 0 {
+			continue
+		}
+		for _, oe := range pair.Old {
+			if oe.Kind == KFile && string(oe.Data) == string(ne.Data) {
+				return true
+			}
+		}
+	}
+	return false
+}
+
+// canPlace: pth is free in t and every ancestor of it is absent or a directory.
+func canPlace(t Tree, pth string) bool {
+	if _, ok := t[pth]; ok {
+		return false
+	}
+	for d := filepath.Dir(pth); d != "." && d != "/"; d = filepath.Dir(d) {
+		if e, ok := t[d]; ok && e.Kind != KDir {
 			return false
 		}
 	}
